@@ -161,6 +161,11 @@ class FakeS3Client:
             o = self.store.bucket(Bucket).get(Key)
             if o is None:
                 raise client_error("404", "HeadObject", 404)
+            sim = cur_sim()
+            if sim is not None and self.store.keep_history and Key.endswith(".lock"):
+                a = cur_actor()
+                sim.extra.setdefault("lock_heads", []).append(
+                    (sim.gstep + 0, a.name if a else "-", sim.true_time(), o.mtime, o.body.decode("utf-8", "replace")))
             return {"ETag": o.etag, "LastModified": _stamp(o.mtime), "ContentLength": len(o.body)}
         return self._call("head", Key, do, "HeadObject")
 
@@ -195,6 +200,11 @@ class FakeS3Client:
                 sim.extra.setdefault("lock_writes", []).append(
                     (sim.gstep + 0, a.name if a else "-", body.decode("utf-8", "replace"),
                      "create" if IfNoneMatch else ("cas" if IfMatch else "plain")))
+                sim.extra.setdefault("lock_writes2", []).append(
+                    {"g": sim.gstep + 0, "actor": a.name if a else "-", "body": body.decode("utf-8", "replace"),
+                     "mode": "create" if IfNoneMatch else ("cas" if IfMatch else "plain"),
+                     "prev": cur.body.decode("utf-8", "replace") if cur is not None else None,
+                     "prev_mtime": cur.mtime if cur is not None else None, "t": sim.now, "tt": t})
                 if cur is not None and cur.body != body:
                     sim.probe("lock_takeover")
             return {"ETag": o.etag}
@@ -202,7 +212,13 @@ class FakeS3Client:
 
     def delete_object(self, Bucket: str, Key: str, **kw):
         def do():
-            self.store.bucket(Bucket).pop(Key, None)
+            prev = self.store.bucket(Bucket).pop(Key, None)
+            sim = cur_sim()
+            if sim is not None and self.store.keep_history and Key.endswith(".lock"):
+                a = cur_actor()
+                sim.extra.setdefault("lock_deletes", []).append(
+                    (sim.gstep + 0, a.name if a else "-", prev.body.decode("utf-8", "replace") if prev else None,
+                     sim.now))
             return {}
         return self._call("delete", Key, do, "DeleteObject")
 
